@@ -153,3 +153,15 @@ reg("C09",
                      "psi' = (phi_M - 1)/x and continuity at neutral: decided by the oracle (scipy quad) until the HasDerivAt theorems land",
                      "user-chosen stretch/domain_height outside the grid's valid range (last zeta >= aa gives a NaN top node): outside the stated quantifier, not raised"],
     assumptions=["0 < z0 < zm", "0 < h", "n >= 1", "(um, vm) != 0", "0 < log(zm/z0) + psi(zm/L) for z0 forcing (positive wind)"])
+
+reg("C16",
+    T("Proofs.C16", "BLDFM.C16", ["nTimesteps_spec", "validate_ok_iff", "getStep_spec", "z0_present_iff"])
+    + T("Proofs.Bridge.Tables", "BLDFM.Bridge", ["met_fields_table"], "bridge"),
+    kernel_groups=["Tables"],
+    partial_clauses=[],
+    assumptions=["field values that are neither list nor None are scalars (tuples/arrays are treated as scalars by the code, as by the model)"],
+    level_text="4 Lean theorems over ALL field lengths and list/scalar/None patterns (validate accepted iff ..., n_timesteps = common length, get_step = i-th entries), "
+               "the model tied to the code by an EXHAUSTIVE correspondence on the stated space (every pattern x length x timestamp x forcing combination) "
+               "and a static extract of the fields the code inspects")
+REGISTRY["C10"]["theorems"] += T("Proofs.Bridge.Tables", "BLDFM.Bridge", ["level_store_table"], "bridge")
+REGISTRY["C10"]["kernel_groups"].append("Tables")
